@@ -46,7 +46,7 @@ Record Good (s : sem) : Prop := mkGood {
            match m_rows s c f with Ok h => 1 <= h | Err e => soft e end;
   g_pack : forall c f, s_flow (m_sizing s) = true -> 1 <= c ->
            match m_rows s c f with
-           | Ok h => exists w, m_pack s (SFlow c) f = Ok (w, h)
+           | Ok h => exists w, 0 <= w /\ m_pack s (SFlow c) f = Ok (w, h)
            | Err e => m_pack s (SFlow c) f = Err e
            end;
   g_flow : forall c f, s_flow (m_sizing s) = true -> 1 <= c ->
@@ -214,7 +214,7 @@ Proof.
   - intros c f Hs Hc. rewrite wrap_rows_valid by lia. apply Hrows; auto.
   - intros c f Hs Hc. rewrite wrap_rows_valid by lia. unfold degenerate.
     replace (c <=? 0) with false by lia. unfold default_pack. rewrite Hs.
-    rewrite wrap_rows_valid by lia. destruct (rows c f); cbn; eauto.
+    rewrite wrap_rows_valid by lia. destruct (rows c f); cbn; [exists c; split; [lia|reflexivity]|reflexivity].
   - intros c f Hs Hc.
     pose proof (wrap_flow render c f (fun d => rows c f = Ok (cr d) /\ rect d = true /\ inside d) Hc (Hflow c f Hs Hc)) as W.
     destruct (wrap_render render (SFlow c) f); [|exact W].
@@ -451,7 +451,7 @@ Proof.
       - assert (H1 : 1 <= w0) by lia.
         pose proof (g_pack s G w0 f Hfl H1) as P. pose proof (g_rows s G w0 f Hfl H1) as R.
         destruct (m_rows s w0 f).
-        + destruct P as [w P]. rewrite P. exact I.
+        + destruct P as [w [W0 P]]. rewrite P. exact I.
         + rewrite P. exact R. }
     destruct sz as [|c|c rr]; try congruence.
     + specialize (K c). destruct (m_pack s (SFlow (Z.max (c - l - r) (omin mw 0))) f) as [p|e]; cbn; [|exact K].
@@ -499,7 +499,7 @@ Proof.
   destruct (Z_le_gt_dec w 0) as [Hz|Hz].
   - rewrite (g_deg_rows s G w f Hz), (g_deg_pack s G w f Hz). reflexivity.
   - pose proof (g_pack s G w f Hfl ltac:(lia)) as P. destruct (m_rows s w f).
-    + destruct P as [x P]. rewrite P. reflexivity.
+    + destruct P as [x [X0 P]]. rewrite P. reflexivity.
     + rewrite P. reflexivity.
 Qed.
 
@@ -623,7 +623,7 @@ Proof.
       pose proof (g_rows _ G c (item_focus f fp i) Hfl Hc) as R.
       pose proof (g_pack _ G c (item_focus f fp i) Hfl Hc) as P.
       destruct (m_rows (pi_sem it) c (item_focus f fp i)) as [h|e]; cbn.
-      * destruct P as [w P]. rewrite P. cbn.
+      * destruct P as [w [W0 P]]. rewrite P. cbn.
         destruct (pile_item_rows_flow l c f fp (i + 1)) as [hs|e]; cbn.
         -- destruct IH as [A [B C]]. rewrite A. cbn. unfold flow_entry_size. rewrite K.
            repeat split; auto.
@@ -636,7 +636,7 @@ Proof.
       pose proof (g_rows _ G c (item_focus f fp i) Hfl Hc) as R.
       pose proof (g_pack _ G c (item_focus f fp i) Hfl Hc) as P.
       destruct (m_rows (pi_sem it) c (item_focus f fp i)) as [h|e]; cbn.
-      * destruct P as [w P]. rewrite P. cbn.
+      * destruct P as [w [W0 P]]. rewrite P. cbn.
         destruct (pile_item_rows_flow l c f fp (i + 1)) as [hs|e]; cbn.
         -- destruct IH as [A [B C]]. rewrite A. cbn. unfold flow_entry_size. rewrite K.
            repeat split; auto.
@@ -769,7 +769,7 @@ Proof.
       pose proof (g_rows _ G c (item_focus f fp i) Hfl Hc) as R.
       pose proof (g_pack _ G c (item_focus f fp i) Hfl Hc) as P.
       destruct (m_rows (pi_sem it) c (item_focus f fp i)) as [h|e].
-      * destruct P as [w P]. rewrite P. cbn.
+      * destruct P as [w [W0 P]]. rewrite P. cbn.
         specialize (IH (i + 1) ir Hin').
         destruct (pile_rows_sizes all l (SBox c r) c f fp (i + 1) ir) as [es|e]; cbn; [|exact IH].
         constructor; auto. left. cbn. auto.
@@ -871,7 +871,7 @@ Definition canvas_ok (c r : Z) (v : res canv) : Prop :=
 
 Definition leaf_contract (d : leafdata) : Prop :=
   (forall c f, s_flow (l_sizing d) = true -> 1 <= c ->
-     exists e h w, l_flow d f c = Ok e /\ fe_rows e = Ok h /\ 1 <= h /\ fe_pack e = Ok (w, h)
+     exists e h w, l_flow d f c = Ok e /\ fe_rows e = Ok h /\ 1 <= h /\ (0 <= w /\ fe_pack e = Ok (w, h))
                    /\ canvas_ok c h (fe_render e))
   /\ (forall c r f, s_box (l_sizing d) = true -> 1 <= c -> 1 <= r -> canvas_ok c r (l_box d c r f)).
 
@@ -879,11 +879,11 @@ Lemma leaf_good d : leaf_contract d -> Good (leaf_sem d).
 Proof.
   intros [HF HB]. constructor; cbn [leaf_sem m_sizing m_rows m_pack m_render].
   - intros c f Hs Hc. replace (c <=? 0) with false by lia.
-    destruct (HF c f Hs Hc) as [e [h [w [E1 [E2 [E3 [E4 E5]]]]]]]. rewrite E1. cbn. rewrite E2. exact E3.
+    destruct (HF c f Hs Hc) as [e [h [w [E1 [E2 [E3 [[W0 E4] E5]]]]]]]. rewrite E1. cbn. rewrite E2. exact E3.
   - intros c f Hs Hc. replace (c <=? 0) with false by lia.
-    destruct (HF c f Hs Hc) as [e [h [w [E1 [E2 [E3 [E4 E5]]]]]]]. rewrite E1. cbn. rewrite E2. eauto.
+    destruct (HF c f Hs Hc) as [e [h [w [E1 [E2 [E3 [[W0 E4] E5]]]]]]]. rewrite E1. cbn. rewrite E2. eauto.
   - intros c f Hs Hc. unfold degenerate. replace (c <=? 0) with false by lia.
-    destruct (HF c f Hs Hc) as [e [h [w [E1 [E2 [E3 [E4 E5]]]]]]]. rewrite E1. cbn.
+    destruct (HF c f Hs Hc) as [e [h [w [E1 [E2 [E3 [[W0 E4] E5]]]]]]]. rewrite E1. cbn.
     unfold canvas_ok in E5. destruct (fe_render e) as [cv|x]; [|exact E5].
     destruct E5 as [A [B [C D]]]. unfold meets. cbn [m_rows leaf_sem].
     replace (c <=? 0) with false by lia. rewrite E1. cbn. rewrite E2. fin.
